@@ -8,6 +8,7 @@ import (
 	"flag"
 	"fmt"
 	"os"
+	"syscall"
 
 	"verif/internal/out"
 	"verif/internal/prng"
@@ -30,6 +31,15 @@ func main() {
 	if !ok {
 		fmt.Fprintf(os.Stderr, "unknown component %q\n", flag.Arg(0))
 		os.Exit(2)
+	}
+	// the network components open many connections: use what the hard descriptor limit allows
+	var lim syscall.Rlimit
+	if syscall.Getrlimit(syscall.RLIMIT_NOFILE, &lim) == nil && lim.Cur < lim.Max {
+		lim.Cur = lim.Max
+		if lim.Cur > 65536 {
+			lim.Cur = 65536
+		}
+		syscall.Setrlimit(syscall.RLIMIT_NOFILE, &lim)
 	}
 	s := out.New(*dir)
 	f(prng.New(*seed), s, *tier)
